@@ -1,6 +1,7 @@
 package props
 
 import (
+	"github.com/hashicorp/hcl/v2/ext/typeexpr"
 	"fmt"
 	"sort"
 	"strings"
@@ -272,6 +273,8 @@ type expTarget struct {
 	def      *hcl.Range
 	typeless bool // AsReference: no type
 	kind     string
+	// wantType: the declared type (block addressable "as type of" an attribute holding a type declaration)
+	wantType *cty.Type
 }
 
 func resolveBlockAddr(steps schema.Address, blk *hclsyntax.Block) (string, bool) {
@@ -371,7 +374,20 @@ func c09Expected(e *model.Eff, body *hclsyntax.Body, unknownOK bool, out *[]expT
 					*out = append(*out, expTarget{addr: addr, rng: b.Range(), def: &def, typeless: true, kind: "block-as-reference"})
 				}
 				if bs.Address.AsTypeOf != nil {
-					*out = append(*out, expTarget{addr: addr, rng: b.Range(), def: &def, kind: "block-as-type-of"})
+					et := expTarget{addr: addr, rng: b.Range(), def: &def, kind: "block-as-type-of"}
+					// the declared type: what the attribute named by AsTypeOf spells, whatever else the block holds
+					if bs.Body != nil {
+						if as, ok := bs.Body.Attributes[bs.Address.AsTypeOf.AttributeExpr]; ok {
+							if _, isDecl := as.Constraint.(schema.TypeDeclaration); isDecl {
+								if a, ok := b.Body.Attributes[bs.Address.AsTypeOf.AttributeExpr]; ok {
+									if t, d := typeexpr.TypeConstraint(a.Expr); !d.HasErrors() {
+										et.wantType = &t
+									}
+								}
+							}
+						}
+					}
+					*out = append(*out, et)
 				}
 				if bs.Address.BodyAsData {
 					*out = append(*out, expTarget{addr: addr, rng: b.Range(), def: &def, kind: "block-body-as-data"})
@@ -422,6 +438,22 @@ func c09TopLevel(cx *explore.Ctx, q run.Query, got reference.Targets, body *hcls
 			continue
 		}
 		okType, okDef := false, false
+		if e.wantType != nil {
+			cx.L.Count("declared_type_checks", 1)
+			has := false
+			var gotTypes []string
+			for _, t := range ts {
+				if t.Type != cty.NilType {
+					gotTypes = append(gotTypes, t.Type.FriendlyName())
+					if t.Type.Equals(*e.wantType) {
+						has = true
+					}
+				}
+			}
+			if !has {
+				add("targets:declared-type", e.kind, fmt.Sprintf("%s declares the type %s, its target has %v", e.addr, e.wantType.FriendlyName(), gotTypes))
+			}
+		}
 		for _, t := range ts {
 			if !e.typeless || t.Type == cty.NilType {
 				okType = true
